@@ -1,5 +1,6 @@
 """C15 — the metadata states every configured descriptive attribute in well-formed TSDL."""
 import json
+import os
 import random
 import yaml
 from harness import common, gencfg, tsdl, irx
@@ -246,6 +247,48 @@ def oracle(cfg, md_text, yaml_text=None):
     return fails, md
 
 
+def null_reset_variant(text, rnd, workdir):
+    """the same trace written differently: every clock type and event record type includes a partial file that states
+    further attributes (description, precision, offset, origin, UUID; log level), and resets to null each of them
+    that the original leaves out — by the documented patching rules (null in the including object resets the property to
+    its default) the metadata must state exactly what it states for the original.  Returns the root document."""
+    import yaml
+    from harness import gencfg
+    doc = yaml.safe_load(text.split('\n', 1)[1])
+    tt = doc['trace']['type']
+    extra = {'description': 'stated by the included file only', 'precision': 99,
+             'offset': {'seconds': 1600463226, 'cycles': 200000}, 'origin-is-unix-epoch': False,
+             'uuid': 'aaaaaaaa-bbbb-cccc-dddd-eeeeeeeeeeee'}
+    os.makedirs(workdir, exist_ok=True)
+    n = 0
+    for cn, ck in list((tt.get('clock-types') or {}).items()):
+        ck = ck or {}
+        base = dict(ck)
+        root = {'$include': [f'base-clock-{cn}.yaml']}
+        root.update(ck)
+        for k, v in extra.items():
+            if k not in ck and rnd.random() < 0.8:
+                base[k] = v
+                root[k] = None
+                n += 1
+        with open(os.path.join(workdir, f'base-clock-{cn}.yaml'), 'w') as f:
+            yaml.dump(base, f, Dumper=gencfg.QuotingDumper, sort_keys=False)
+        tt['clock-types'][cn] = root
+    for dn, d in tt['data-stream-types'].items():
+        for en, e in list(d['event-record-types'].items()):
+            e = e or {}
+            if 'log-level' in e or rnd.random() < 0.3:
+                continue
+            with open(os.path.join(workdir, f'base-ert-{dn}-{en}.yaml'), 'w') as f:
+                yaml.dump({'log-level': 4}, f, Dumper=gencfg.QuotingDumper, sort_keys=False)
+            root = {'$include': [f'base-ert-{dn}-{en}.yaml']}
+            root.update(e)
+            root['log-level'] = None
+            d['event-record-types'][en] = root
+            n += 1
+    return gencfg.HEADER + yaml.dump(doc, Dumper=gencfg.QuotingDumper, sort_keys=False, default_flow_style=False), n
+
+
 def run(c):
     ob = c.proof_obligations()
     c.assumptions += ASSUME
@@ -255,6 +298,8 @@ def run(c):
     import barectf.template as bt
     done = nfail = rej = 0
     samples = []
+    work = common.scratch()
+    nullreset = {'documents': 0, 'properties_reset': 0, 'failures': 0, 'rejected': 0}
     for i in range(n * 3):
         if done >= n:
             break
@@ -274,6 +319,30 @@ def run(c):
                              'failures': fails[:5], 'config_yaml': text})
         if len(samples) < 2:
             samples.append({'clock_types': len(cfg.trace.type.clock_types), 'env': list(cfg.trace.environment)[:4]})
+        # the same trace with included partial files whose additional attributes the document resets to null: the
+        # expectations stay those of the plain document
+        if done % 2 == 0:
+            wd = os.path.join(work, f'nr{done}')
+            text2, nres = null_reset_variant(text, rnd, wd)
+            if nres:
+                try:
+                    cfg2 = common.load_cfg(text2, [wd])
+                except Exception as e:
+                    nullreset['rejected'] += 1
+                    if not c.violations:
+                        c.violation({'property': 'C15', 'kind': 'a document that resets included properties to null is refused',
+                                     'error': str(e)[:300], 'config_yaml': text2})
+                    continue
+                nullreset['documents'] += 1
+                nullreset['properties_reset'] += nres
+                mdt2 = barectf.CodeGenerator(cfg2).generate_metadata_stream().contents
+                fails2, _ = oracle(cfg2, mdt2, text)
+                if fails2:
+                    nullreset['failures'] += 1
+                    if len(c.violations) < 5:
+                        c.violation({'property': 'C15', 'kind': 'metadata states an attribute of an included file that the document '
+                                     'resets to null (or misses a configured one)', 'failures': fails2[:5], 'config_yaml': text2,
+                                     'inclusion_directory_files': {fn: open(os.path.join(wd, fn)).read() for fn in sorted(os.listdir(wd))[:6]}})
     # the escape filter and the emission rules: real filter vs Lean model
     strs = NASTY + [''.join(rnd.choice('ab"\\\n\t é') for _ in range(rnd.randint(0, 12))) for _ in range(200)]
     q = [json.dumps({'op': 'escape', 'hex': s.encode().hex()}) for s in strs]
@@ -288,7 +357,8 @@ def run(c):
                 c.violation({'property': 'C15', 'kind': 'escape filter differs from the model' + (': a raw new-line survives escaping' if bare else ''),
                              'string': s, 'implementation': bt._filt_escape_dq(s), 'model_hex': g}, found_input=bare)
     c.coverage.update({'correspondence': {'configurations': done, 'attribute_failures': nfail, 'generator_rejections': rej,
-                                          'escape_strings': len(strs), 'escape_differences': ndiff},
+                                          'escape_strings': len(strs), 'escape_differences': ndiff,
+                                          'null_reset_variants': nullreset},
                        'evaluations': done + len(strs), 'disagreements_checked': ndiff, 'samples': samples})
     if not c.violations and not ob['ok']:
         c.violation({'property': 'C15', 'kind': 'proof obligation no longer checks', 'failures': ob['failures'],
